@@ -137,4 +137,19 @@ def run(ctx):
         return False
     total, dis, listed = check_panic_surface(ctx, "panic-surface", bodies, audited, discharge=discharged, what="sbor decoder")
     ctx.ob("panic-surface|enumerated", total >= 10, f"{total} panic-capable construct(s) in sbor::decoder, {dis} discharged by dominance, {listed} within the audited table")
+    ctx.rule("T6: audited panic surface of sbor::traversal (untyped + typed traversers)")
+    audited_tr = {
+        r"path_formatting::PathAnnotate::format_path$": {"Result::unwrap": (1, "fmt::Write into a String cannot fail")},
+        r"typed_traverser::TypedTraverserState::get_type_id$": {"Option::unwrap": (4, "container_stack non-empty whenever the latest ancestor is a container child"), "RemainderByZero": (1, "% 2 (constant)")},
+        r"typed_traverser::TypedTraverserState::map_container_end_event$": {"Option::unwrap": (1, "an end event always follows its start event (stack push)")},
+        r"typed_traverser::traverse_partial_payload_with_types$": {"Overflow(Sub)<usize>": (1, "API precondition current_depth <= depth_limit (callers pass the decoder's own depth)")},
+        r"untyped::events::ContainerHeader::get_child_count$": {"Overflow(Mul)<usize>": (1, "map length <= 2^28-1 (read_size bound)")},
+        r"untyped::traverser::VecTraverser::step$": {"Option::unwrap": (2, "parent pushed just before / has just been read"), "Overflow(Sub)<usize>": (1, "array_length >= 1 on the ReadFirstChild action"),
+                                                     "Overflow(Add)<usize>": (1, "child index < child count <= 2^29"), "panic": (3, "API misuse panics after an error/end event; unreachable placeholder")},
+        r"untyped::traverser::calculate_value_tree_body_byte_length$": {"Overflow(Sub)<usize>": (1, "API precondition current_depth <= depth_limit")},
+    }
+    tb = [ctx.body(nm) for nm in F.fns if re.match(r"^(<)?sbor::traversal::", nm) and not re.search(r" as (core::fmt|core::clone|core::cmp)", nm)
+          and (F.fns[nm].asserts or any(re.search(r"unwrap|expect|panick|::index", c[0]) for c in F.fns[nm].calls))]
+    t2, d2, l2 = check_panic_surface(ctx, "traversal-panic-surface", tb, audited_tr, what="sbor traversal")
+    ctx.ob("traversal-panic-surface|enumerated", t2 >= 12, f"{t2} panic-capable construct(s) in sbor::traversal, {l2} within the audited table")
     ctx.assume("agreement of the depth accounting between decoder, traverser and encoder (off-by-one) is value-level and not decided")
